@@ -531,7 +531,8 @@ class UnitSystemManager(Singleton):
         ret_tuple = self.ConvertToCurrent(
             scalar.GetCategory(), scalar.GetUnit(), scalar.GetValue(), unit_database
         )
-        return Scalar(*ret_tuple)
+        value, unit = ret_tuple
+        return Scalar(value, unit, scalar.GetCategory())
 
 
 class _IdentityWrap:
